@@ -89,6 +89,9 @@ func witnesses() map[string]func(c *core.Case) {
 		// a Meta without a hash panics in every encoder
 		"codec:S:file.Meta:panic@crypto.HashOutput.TokenReader:other": witnessValue("file.Meta", &file.Meta{Name: "a.txt", Size: 3}),
 
+		// a slot decoded from a reply without a <put/> URL: Put dereferences the nil URL
+		"codec:S:upload.Slot:panic@upload.Slot.Put:nil-deref": witnessDoc("upload.Slot", `<slot xmlns="urn:xmpp:http:upload:0"><get url="https://download.example.org/f"/></slot>`),
+
 		// the extension's own xmlns attribute is passed through and the encoder
 		// adds another one
 		"codec:W:bookmarks.Channel:duplicate-attribute": witnessValue("bookmarks.Channel", &bookmarks.Channel{Name: "n", Extensions: []byte(`<a xmlns="urn:x"/>`)}),
